@@ -317,9 +317,12 @@ func genC07(r *R, n int, tier string, out *Out) {
 		}
 		return r.finiteFloat()
 	}
+	big := r.bigTrees(o)
 	for i := 0; i < n; i++ {
 		var a *V
-		if r.chance(0.5) {
+		if i < 3*len(big) {
+			a = big[i%len(big)] // each large shape three times: the edits below then aim at the tail, at random places, or make a copy
+		} else if r.chance(0.5) {
 			a = r.listTree(o)
 		} else {
 			a = r.objTree(o)
@@ -773,6 +776,10 @@ func genC17(r *R, n int, tier string, out *Out) {
 		}
 		if r.chance(0.03) {
 			ln = r.stressSize()
+		}
+		if i < 9 {
+			ln = []int{1025, 4101, 4102, 1030, 4099, 257, 5003, 1023, 4097}[i]
+			mode = i % 3 // (ints with duplicates, extreme ints, ... : the first modes)
 		}
 		var elems []*V
 		tag := ""
